@@ -78,11 +78,12 @@ Qed.
 
 Lemma kp_c07_sound cs tbl u :
   c_acl cs = Some tbl -> c_user cs = Some u -> has_sub_step (c_ops cs) = true ->
+  has_acl_step (c_ops cs) = false ->
   kp_c07 cs = [] ->
   forall ob n d, In ob (c_obs cs) -> In (OUpd n d) (ob_group ob) ->
                  allow_of tbl u (g_target (n_prefix n)) = true.
 Proof.
-  unfold kp_c07. intros Ha Hu Hs. rewrite Ha, Hs, Hu. cbn [negb].
+  unfold kp_c07. intros Ha Hu Hs Hd. rewrite Ha, Hs, Hu, Hd. cbn [negb].
   intros H. apply app_eq_nil in H as [H _]. eapply denied_from_sound; eauto.
 Qed.
 
